@@ -371,6 +371,12 @@ func Gen(prop, tier string, seed uint64) *kernel.Plan {
 			}
 			evs = append(evs, e)
 		}
+		if prop == "C13" && g.Chance(1, 15) {
+			// the application asks its client again for a key it holds (same or another type, any mode,
+			// with or without handlers)
+			k := c.keys[g.Intn(len(c.keys))]
+			evs = append(evs, Ev{T: "open", A: a, K: k, Kind: kinds[g.Intn(4)], Mode: []string{"create", "subscribe", "soc"}[g.Intn(3)], Pos: 1, N: []int{0, 0, 4, 8}[g.Intn(4)]})
+		}
 		if prop == "C18" && g.Chance(1, 12) {
 			// the answer to this client's next push (it pushes by itself after its next local operation)
 			// is slow: a pull caused by somebody else's notification overtakes it
@@ -480,7 +486,7 @@ func vary(prop string, g *kernel.Rng, cfg *Config, evs []Ev) {
 				}
 			case "open":
 				e.K = rename(e.K)
-				if hv && g.Chance(1, 2) {
+				if hv && e.Pos != 1 && g.Chance(1, 2) {
 					e.N = g.Range(1, 7)
 				}
 			case "patch":
